@@ -164,7 +164,14 @@ func fmtKey(k []byte) string {
 	return hex.EncodeToString(k)
 }
 
-func (s *session) dir(name string) string { return filepath.Join(s.base, name) }
+// dir: the directory a protocol name stands for.  Names starting with "u." are handed to the engine as an UNCLEAN path
+// (<base>/./<name>): the same directory, spelled the way a caller who configures "./data" spells it
+func (s *session) dir(name string) string {
+	if strings.HasPrefix(name, "u.") {
+		return s.base + "/./" + name
+	}
+	return filepath.Join(s.base, name)
+}
 
 func parseOpts(dir string, f []string) (kv.Options, error) {
 	// <fs> <sync> <bps> <idx> <io> <shards>
